@@ -88,10 +88,22 @@ func diffStill(p *stillParts) *diffOutcome {
 	}
 	switch {
 	case p.Lossless:
+		// The memory-safe witness goes first: libwebp 1.2.4 (the system library) still has the
+		// BuildHuffmanTable heap overflow on invalid prefix codes (CVE-2023-4863), so it is only shown
+		// streams whose every code x/image has already validated and decoded.
+		o.WitnessTotal++
+		w2, _, _, err2 := xref.DecodeVP8L(p.Bitstream)
+		if err2 == nil {
+			o.WitnessAccept++
+		}
 		var w1 []byte
 		ok1 := false
 		if lib {
 			o.WitnessTotal++
+			if err2 != nil {
+				o.WitnessNote = fmt.Sprintf("libwebp not consulted, x/image err=%v", err2)
+				return o
+			}
 			var ww, hh int
 			w1, ww, hh, ok1 = cref.DecodeRGBA(wf)
 			if ok1 && (ww != p.W || hh != p.H) {
@@ -100,11 +112,6 @@ func diffStill(p *stillParts) *diffOutcome {
 			if ok1 {
 				o.WitnessAccept++
 			}
-		}
-		o.WitnessTotal++
-		w2, _, _, err2 := xref.DecodeVP8L(p.Bitstream)
-		if err2 == nil {
-			o.WitnessAccept++
 		}
 		var truth []byte
 		switch {
@@ -142,19 +149,23 @@ func diffStill(p *stillParts) *diffOutcome {
 		return o
 	default:
 		// lossy planes
-		var y1 *cref.YUV
-		ok1 := false
-		if lib {
-			o.WitnessTotal++
-			y1, ok1 = cref.DecodeYUV(wf)
-			if ok1 {
-				o.WitnessAccept++
-			}
-		}
 		o.WitnessTotal++
 		y2, err2 := xref.DecodeVP8(p.Bitstream)
 		if err2 == nil {
 			o.WitnessAccept++
+		}
+		var y1 *cref.YUV
+		ok1 := false
+		if lib {
+			o.WitnessTotal++
+			if err2 != nil {
+				o.WitnessNote = fmt.Sprintf("libwebp not consulted, x/image err=%v", err2)
+				return o
+			}
+			y1, ok1 = cref.DecodeYUV(wf)
+			if ok1 {
+				o.WitnessAccept++
+			}
 		}
 		var ty, tu, tv []byte
 		switch {
@@ -206,6 +217,10 @@ func diffStill(p *stillParts) *diffOutcome {
 		rgb := yuvref.FancyRGB(ty, tu, tv, p.W, p.H)
 		var truth []byte
 		if lib {
+			if errA != nil {
+				o.WitnessNote = fmt.Sprintf("alpha: libwebp not consulted, x/image alpha err=%v", errA)
+				return o
+			}
 			w1, ww, hh, okr := cref.DecodeRGBA(p.File)
 			if !okr || errA != nil || ww != p.W || hh != p.H {
 				o.WitnessNote = fmt.Sprintf("alpha: libwebp RGBA accepted=%v x/image alpha err=%v", okr, errA)
